@@ -240,11 +240,18 @@ def genGear (r : Rng) : Val × Rng :=
   let (fs, r) := genBs gearTail r
   (.tuple (.nat item :: em :: fs), r)
 
+/-- one character of generated text: mostly ASCII letters, now and then a 2- or 3-byte UTF-8 sequence (é, Ж, €) — byte length ≠ character count -/
+def genChar (x : Nat) : Bytes :=
+  if x < 26 then [UInt8.ofNat (97 + x)]
+  else if x == 26 then [0xC3, 0xA9]
+  else if x == 27 then [0xD0, 0x96]
+  else [0xE2, 0x82, 0xAC]
+
 def genName (r : Rng) : Bytes × Rng :=
   let (n, r) := r.below 12
   let rec go : Nat → Rng → Bytes × Rng
     | 0, r => ([], r)
-    | k + 1, r => let (c, r) := r.below 26; let (bs, r) := go k r; (UInt8.ofNat (97 + c) :: bs, r)
+    | k + 1, r => let (c, r) := r.below 29; let (bs, r) := go k r; (genChar c ++ bs, r)
   go n r
 
 def genPrim (ctx : GenCtx) (name : String) (r : Rng) : Option (Val × Rng) :=
@@ -363,7 +370,7 @@ def genLeaf (ctx : GenCtx) (id : Nat) (l : Leaf) (r : Rng) : Option (Val × Rng)
   | .cstring | .sizedCString | .string =>
       let (n, r) := r.below (min 9 (ctx.maxLen * 2 + 1))
       let (bs, r) := (List.range n).foldl (fun (acc : Bytes × Rng) _ =>
-        let (x, r) := acc.2.below 26; (UInt8.ofNat (97 + x) :: acc.1, r)) ([], r)
+        let (x, r) := acc.2.below 29; (genChar x ++ acc.1, r)) ([], r)
       some (.bytes bs, r)
   | .packedGuid =>
       let (x, r) := r.below (256 ^ 8)
